@@ -115,7 +115,7 @@ def run_uniform(case, res):
             break
     xs = demodel.uniform_stripes(lv)
     X, labels, style = gen_data(rng, d, xs)
-    lam = rng.choice([0.0, 1e-3, 0.1, 1.0])
+    lam = rng.choice([0.0, 1e-3, 0.1, 1.0] * 5 + [1e9])     # rarely a very strong regulariser (tiny surpluses before the normalisation)
     ml = rng.random() < 0.25
     cfg = {"path": "uniform", "d": d, "levels": lv, "N": N, "M": len(X), "data": style, "lambda": lam, "masslumping": ml, "labels": labels is not None}
     res.sample = {"config": cfg}
@@ -190,7 +190,7 @@ def run_dimwise(case, res):
     ns = [len(x) for x in xs]
     N = int(np.prod([n - 2 for n in ns]))
     X, labels, style = gen_data(rng, d, xs)
-    lam = rng.choice([0.0, 1e-3, 0.1, 1.0])
+    lam = rng.choice([0.0, 1e-3, 0.1, 1.0] * 5 + [1e9])     # rarely a very strong regulariser (tiny surpluses before the normalisation)
     ml = rng.random() < 0.25
     numeric = (N <= 9 and rng.random() < 0.3) if tier == "thorough" else (N <= 4 and d == 1 and rng.random() < 0.5)
     if numeric:
@@ -305,7 +305,7 @@ def run_dimwise_boundary(case, res):
     N = int(np.prod(ns))
     X, labels, style = gen_data(rng, d, xs)
     X = np.clip(X, 1e-3, 1 - 1e-3)
-    lam = rng.choice([0.0, 1e-3, 0.1, 1.0])
+    lam = rng.choice([0.0, 1e-3, 0.1, 1.0] * 5 + [1e9])     # rarely a very strong regulariser (tiny surpluses before the normalisation)
     cfg = {"path": "dimwise_boundary", "d": d, "n": ns, "N": N, "M": len(X), "data": style, "lambda": lam, "labels": labels is not None,
            "levels": levs}
     res.sample = {"config": cfg}
